@@ -240,3 +240,31 @@ def is_field_of(prog, t, base_pred, adt_path, field_name):
         if accessor_field(prog, t[1]) == fi and base_pred(strip(t[2][0])):
             return True
     return False
+
+
+def option_test(d, rel, vals):
+    """If the switch edge `d rel vals` tests whether an Option value X is Some/None — through `X.is_some()`,
+    `X.is_none()` or a `match`/`if let` on its discriminant — return (X, "some"|"none"); else None."""
+    x = strip(d)
+    tr = truth_of(rel, vals)
+    if x[0] == "call" and len(x[2]) == 1 and short(x[1]) in ("Option::<T>::is_some", "Option::<T>::is_none") and tr is not None:
+        some = (short(x[1]).endswith("is_some")) == tr
+        return strip(x[2][0]), ("some" if some else "none")
+    if x[0] == "discr":
+        vs = sorted(vals)
+        if (rel == "in" and vs == [1]) or (rel == "notin" and vs == [0]):
+            return strip(x[1]), "some"
+        if (rel == "in" and vs == [0]) or (rel == "notin" and vs == [1]):
+            return strip(x[1]), "none"
+    return None
+
+
+def canon_cmp(c):
+    """spell `a > b` as `b < a` and `a >= b` as `b <= a` (also for the float NotGt/NotGe forms)"""
+    if c is None:
+        return None
+    op, a, b = c
+    m = {"Gt": "Lt", "Ge": "Le", "NotGt": "NotLt", "NotGe": "NotLe"}
+    if op in m:
+        return (m[op], b, a)
+    return c
